@@ -1,6 +1,8 @@
 import HappyProofs.C12.PxFut
 import HappyProofs.C12.LockProof
 import HappyProofs.C12.MPWitness
+import HappyProofs.C12.MPCommit
+import HappyProofs.C12.MPLeader
 import HappyProofs.C12.ElWitness
 import HappyModel.C12.Spec
 /-!
@@ -151,6 +153,131 @@ theorem retry_decides_none :
 
 /-- under the repaired rule the acks for the abandoned ballot are ignored -/
 example : (runActs (init 5 (majority 5) (majority 5)) witnessNone).decided 0 = none := by decide
+
+/-! ## Flexible quorums: phase 1 uses `q1`, a decision needs `q2` distinct acceptors -/
+
+/-- QUORUM INTERSECTION (Flexible Paxos): on `n` nodes, any phase-1 quorum (`≥ q1` distinct nodes)
+    meets any phase-2 quorum (`≥ q2` distinct nodes) as soon as `q1 + q2 > n`. -/
+theorem flexible_quorums_intersect (n q1 q2 : Nat) (Q1 Q2 : List Nat) (h1 : Q1.Nodup) (h2 : Q2.Nodup)
+    (b1 : ∀ f ∈ Q1, f < n) (b2 : ∀ f ∈ Q2, f < n) (l1 : q1 ≤ Q1.length) (l2 : q2 ≤ Q2.length)
+    (hq : n < q1 + q2) : ∃ f, f ∈ Q1 ∧ f ∈ Q2 :=
+  quorum_lists_meet n q1 q2 Q1 Q2 h1 h2 b1 b2 l1 l2 hq
+
+/-- non-vacuity: 4 nodes, q1 = 2 < q2 = 3 (the asymmetric case), quorums {0,1} and {1,2,3} … -/
+example : [0, 1].Nodup ∧ [1, 2, 3].Nodup ∧ (∀ f ∈ [0, 1], f < 4) ∧ (∀ f ∈ [1, 2, 3], f < 4) ∧
+    2 ≤ [0, 1].length ∧ 3 ≤ [1, 2, 3].length ∧ 4 < 2 + 3 := by decide
+
+/-- … and the hypothesis `n < q1 + q2` is needed: with q1 = q2 = 2 on 4 nodes {0,1} and {2,3} are disjoint -/
+example : ¬ ∃ f, f ∈ [0, 1] ∧ f ∈ [2, 3] := by decide
+
+/-- A DECISION NEEDS A PHASE-2 QUORUM: along every action sequence of the (single-decree, flexible)
+    Paxos model, a node reports `v` as decided only if, for some ballot `b`, at least `q2` *distinct*
+    acceptors voted for `(b, v)`.  (`q1` plays no role here; phase 1 is where `q1` is used.) -/
+theorem paxos_decision_has_phase2_quorum (n q1 q2 : Nat) (as : List Act) (d : Nat) (v : Val)
+    (h : (runActs (init n q1 q2) as).decided d = some v) :
+    ∃ (b : Nat) (Q : List Nat), Q.Nodup ∧
+      (∀ a ∈ Q, a < n ∧ (a, b, v) ∈ (runActs (init n q1 q2) as).votes) ∧ q2 ≤ Q.length := by
+  have inv := run_inv (init n q1 q2) as (init_inv n q1 q2)
+  have hc := run_cfg (init n q1 q2) as
+  obtain ⟨b, Q, hnd, hQ, hlen⟩ := inv.learn.node d v h
+  refine ⟨b, Q, hnd, ?_, ?_⟩
+  · intro a ha
+    have := hQ a ha
+    rw [hc] at this
+    exact this
+  · rw [hc] at hlen; exact hlen
+
+/-- non-vacuity: in `demo` node 0 does report a decision -/
+example : (runActs (init 3 (majority 3) (majority 3)) demo).decided 0 = some 71 := by decide
+
+/-! ## Multi-Paxos / Flexible Paxos log: the leader's commit rule -/
+
+/-- COMMIT NEEDS A PHASE-2 QUORUM OF ACKNOWLEDGEMENTS: for every cluster size, every `(q1, q2)`,
+    Multi- or Flexible Paxos, and **every** action list (any interleaving, loss, duplication, leader
+    changes), the observations of the model run satisfy the Spec clause the judge evaluates on
+    implementation transcripts: whenever the delivery of an `Accepted` raises the receiver's commit
+    index, at least `q2` acknowledgements for that slot exist (its own entry + the `Accepted`
+    messages delivered to it).  The model's phase 1 compares with `q1`, its commit with `q2`. -/
+theorem MP.commit_needs_phase2_quorum (n q1 q2 : Nat) (flex : Bool) (as : List MP.Act) :
+    Spec.commitQuorum q2 [] (MP.obsRun (MP.init n q1 q2 flex) as) = true :=
+  MP.run_commitQuorum as (MP.init n q1 q2 flex) [] (MP.init_inv n q1 q2 flex)
+
+/-- the same through the judge's entry point: no commit-rule signature on any model run -/
+theorem MP.commit_judge_silent (pfx : String) (n q1 q2 : Nat) (flex : Bool) (as : List MP.Act) :
+    Spec.judgeCommit pfx q2 false (MP.obsRun (MP.init n q1 q2 flex) as) = none := by
+  simp [Spec.judgeCommit, MP.commit_needs_phase2_quorum]
+
+/-- 4 nodes, q1 = 2, q2 = 3, nodes {0,1} cut off from {2,3}: node 0 has a pending command, starts,
+    gets the promise of node 1 (phase-1 quorum of exactly q1 = 2), proposes slot 1, node 1 accepts and
+    acknowledges: 2 acknowledgements < q2 -/
+def MP.minorityLeader : List MP.Act :=
+  [ .submit 0 1, .start 0, .prepare 1 4, .promise 0 1, .accept 1 0 4 1 1 0, .accepted 0 1 ]
+
+/-- non-vacuity of `commit_needs_phase2_quorum`: when node 2 accepts as well, node 0 commits slot 1
+    (the observation list contains a real commit, `ci 0 → 1`, with 3 acknowledgements) … -/
+example :
+    MP.decidedAt (MP.run (MP.init 4 2 3 true) (MP.minorityLeader ++ [.accept 2 0 4 1 1 0, .accepted 0 1])) 0 1 = some 1 ∧
+    Spec.LogObs.ack 0 1 0 1 4 1 ∈ MP.obsRun (MP.init 4 2 3 true) (MP.minorityLeader ++ [.accept 2 0 4 1 1 0, .accepted 0 1]) := by
+  decide
+
+/-- … and with q1 = 2 acknowledgements only, the model (which compares with q2 = 3) reports nothing -/
+example : MP.decidedAt (MP.run (MP.init 4 2 3 true) MP.minorityLeader) 0 1 = none := by decide
+
+/-- THE SPEC SEPARATES q1 FROM q2: a node that commits on a *phase-1* quorum of acknowledgements
+    (the model run with its commit threshold set to q1 = 2) violates the clause for q2 = 3 on the
+    minority-leader schedule — this is the class of defect `fpaxos/commit/without-phase2-quorum`. -/
+theorem MP.commit_on_phase1_quorum_violates_spec :
+    (4 < 2 + 3) ∧
+    MP.decidedAt (MP.run (MP.init 4 2 2 true) MP.minorityLeader) 0 1 = some 1 ∧
+    Spec.commitQuorum 3 [] (MP.obsRun (MP.init 4 2 2 true) MP.minorityLeader) = false := by
+  decide
+
+/-- LEADERSHIP NEEDS A PHASE-1 QUORUM OF PROMISES: for every cluster size, every `(q1, q2)` and
+    **every** action list, whenever `start()` or a delivered `Promise` turns a node's `is_leader` from
+    false to true, at least `q1` phase-1 responses for that ballot number (its own `start()` + the
+    promises delivered to it) have reached it. -/
+theorem MP.leader_needs_phase1_quorum (n q1 q2 : Nat) (flex : Bool) (as : List MP.Act) :
+    Spec.leaderQuorum q1 [] (MP.obsRun (MP.init n q1 q2 flex) as) = true :=
+  MP.run_leaderQuorum as (MP.init n q1 q2 flex) [] (MP.init_invL n q1 q2 flex)
+
+theorem MP.leader_judge_silent (pfx : String) (n q1 q2 : Nat) (flex : Bool) (as : List MP.Act) :
+    Spec.judgeLeader pfx q1 (MP.obsRun (MP.init n q1 q2 flex) as) = none := by
+  simp [Spec.judgeLeader, MP.leader_needs_phase1_quorum]
+
+/-- 4 nodes, q1 = 3 > q2 = 2: node 0 starts and receives the promise of node 1 -/
+def MP.onePromise : List MP.Act := [ .start 0, .prepare 1 4, .promise 0 1 ]
+
+/-- non-vacuity: the second promise (3 responses = q1) makes node 0 leader — a real `false → true`
+    observation; one promise does not -/
+example :
+    Spec.LogObs.prom 0 1 false true ∈ MP.obsRun (MP.init 4 3 2 true) (MP.onePromise ++ [.prepare 2 4, .promise 0 1]) ∧
+    (MP.getNode (MP.run (MP.init 4 3 2 true) MP.onePromise) 0).isLeader = false := by
+  decide
+
+/-- the mirror image of `commit_on_phase1_quorum_violates_spec`: a node whose phase 1 compares with
+    q2 = 2 (the model run with its phase-1 threshold set to 2) leads after one promise and violates the
+    clause for q1 = 3 — the class `fpaxos/leader/without-phase1-quorum`. -/
+theorem MP.leader_on_phase2_quorum_violates_spec :
+    (4 < 3 + 2) ∧
+    (MP.getNode (MP.run (MP.init 4 2 2 true) MP.onePromise) 0).isLeader = true ∧
+    Spec.leaderQuorum 3 [] (MP.obsRun (MP.init 4 2 2 true) MP.onePromise) = false := by
+  decide
+
+/-- 3 nodes, q1 = 1, q2 = 3: node 0 leads at once, the late promise of node 1 makes `_become_leader`
+    replicate slot 1 a second time, node 1 acknowledges twice -/
+def MP.duplicateAcks : List MP.Act :=
+  [ .submit 0 1, .start 0, .prepare 1 3, .promise 0 1,
+    .accept 1 0 3 1 1 0, .accept 1 0 3 1 1 0, .accepted 0 1, .accepted 0 1 ]
+
+/-- THE PINNED TREE COUNTS ACKNOWLEDGEMENTS, NOT ACCEPTORS: on `duplicateAcks` node 0 commits slot 1
+    although only nodes {0, 1} ever accepted it (q2 = 3): the distinct-acceptor form
+    `Spec.commitQuorumStrict` is false of the code as written, the acknowledgement form holds. -/
+theorem MP.commit_distinct_quorum_current_false :
+    (3 < 1 + 3) ∧
+    MP.decidedAt (MP.run (MP.init 3 1 3 true) MP.duplicateAcks) 0 1 = some 1 ∧
+    Spec.commitQuorumStrict 3 [] (MP.obsRun (MP.init 3 1 3 true) MP.duplicateAcks) = false ∧
+    Spec.commitQuorum 3 [] (MP.obsRun (MP.init 3 1 3 true) MP.duplicateAcks) = true := by
+  decide
 
 /-! ## Distributed lock -/
 
